@@ -46,8 +46,8 @@ for d in sorted(glob.glob('/tmp/seeds/C*/[123]')):
         runs = re.search(r'(C\d+ \w+: \d+ runs[^\n]*)', t)
         checks[prop] = {'exit': int(rc.group(1)) if rc else None, 'signatures': sigs, 'summary': runs.group(1)[:200] if runs else ''}
     caught = [p for p, c in checks.items() if isinstance(c, dict) and c['exit'] == 1]
-    if os.path.exists(d + '/eval_note.txt'):
-        checks['note'] = open(d + '/eval_note.txt').read().strip()
+    if os.path.exists(d + '/note_eval.txt'):
+        checks['note'] = open(d + '/note_eval.txt').read().strip()
     meta = {'property': PROP, 'seed': f'{ID}-{k}', 'title': title, 'files_changed': files, 'needs_to_manifest': needs,
             'confirmed_in_scratch_worktree': ver, 'checks_run': checks, 'caught_by': caught,
             'how_to_apply': f'git -C /repo apply /verif/seeded/{ID}-{k}/patch.diff ; ./check {PROP} quick ; git -C /repo checkout -- .  (or tools/eval_seed.sh {PROP} /verif/seeded/{ID}-{k}/patch.diff quick 30, which uses a scratch worktree)'}
